@@ -307,3 +307,30 @@ Fixpoint surviving_files (pre : list bytes) (n : node) : list (list bytes) :=
 Definition listed_in (cs : list node) : list (list bytes) := flat_map (listed_files []) cs.
 Definition listed_in_pinned (cs : list node) : list (list bytes) := flat_map (listed_files_gen false []) cs.
 Definition surviving_in (cs : list node) : list (list bytes) := flat_map (surviving_files []) cs.
+
+(** * Several runs into one output directory.
+    prepareDirs creates the run directory with os.Mkdir (not MkdirAll): a run
+    whose id is taken is refused ("file exists").  The alias is refreshed by
+    whoever starts; the end of a run (run(): --clear erases the run's own
+    directory) does not touch the alias. *)
+Record od_state := {
+  od_alias : alias_state;
+  od_runs : list bytes;             (* run directories that exist *)
+}.
+Definition run_link (id : bytes) : path := {| p_abs := false; p_comps := [id] |}.
+Definition mem_id (id : bytes) (l : list bytes) : bool := existsb (bytes_eqb id) l.
+Definition start_run (id : bytes) (st : od_state) : option od_state :=
+  if mem_id id (od_runs st) then None                      (* Mkdir: file exists *)
+  else match remove_alias (od_alias st) with
+       | None => None
+       | Some a => Some {| od_alias := make_link a (run_link id); od_runs := id :: od_runs st |}
+       end.
+Definition end_run (id : bytes) (erased : bool) (st : od_state) : od_state :=
+  {| od_alias := od_alias st;
+     od_runs := if erased then filter (fun x => negb (bytes_eqb id x)) (od_runs st) else od_runs st |}.
+(** Does the alias lead to an existing run directory, and which? *)
+Definition alias_leads_to (st : od_state) : option bytes :=
+  match od_alias st with
+  | ALink {| p_abs := false; p_comps := [id] |} => if mem_id id (od_runs st) then Some id else None
+  | _ => None
+  end.
